@@ -59,6 +59,11 @@ Clauses(o, ev, o2, p) ==
                      /\ ~o.gone /\ ~o.reset /\ ~o.tfail /\ App(o, a).disc = 0
                      /\ Wire(o, a).ends = 0
                 THEN <<F("collateral", "h2")>> ELSE <<>>)
+            \* ... and keep being fed: after an application has ended, the upload of another stream is held up
+            \* at window 0 although everything the client has sent was consumed or belongs to requests that are over
+            \o (IF ~o.winddown /\ (\E b \in DOMAIN o.apps : App(o, b).done # "")
+                   /\ \E a \in DOMAIN o.stalled : UploadStarved(o, a)
+                THEN <<F("collateral", "h2-sibling-upload-starved")>> ELSE <<>>)
       [] OTHER -> <<>>
 
 PStep(p, o, ev, o2) ==
